@@ -6,6 +6,8 @@
 import LiquidModel.Lemmas.NoPanic
 import LiquidModel.Lemmas.NoFuel
 import LiquidModel.Model.StdFilters
+import LiquidModel.Model.StrFilters
+import LiquidModel.Generated.Registry
 import LiquidModel.Props.C14
 import LiquidModel.Props.C15
 import LiquidModel.Props.C16
@@ -144,6 +146,48 @@ theorem C02_fuel_irrelevant (env : Env) (fuel extra : Nat) (t : Tmpl) (globals :
 /-- non-vacuity: a two-level template needs fuel 2 -/
 example : dL [.for_ "x".toList (.arr (.lit .nil)) none none false [.text "a".toList] none] = 2 := by decide
 example : npL [.for_ "x".toList (.arr (.lit .nil)) none none false [.text "a".toList] none] = true := by decide
+
+/-! ### the registry: every filter `ParserBuilder::stdlib` registers has a model -/
+
+def mathNames : List String := ["abs", "at_least", "at_most", "plus", "minus", "times", "divided_by", "modulo", "round", "ceil", "floor"]
+def arrNames : List String := ["sort", "sort_natural", "uniq", "reverse", "map", "compact", "concat", "where", "first", "last", "size", "join"]
+def miscNames : List String := ["escape", "escape_once", "strip_html", "url_encode", "url_decode", "date"]
+def strNames : List String := ["append", "prepend", "upcase", "downcase", "capitalize", "strip", "lstrip", "rstrip", "strip_newlines",
+  "newline_to_br", "replace", "replace_first", "remove", "remove_first", "split", "join", "truncate", "truncatewords", "slice", "size",
+  "first", "last", "default"]
+
+theorem std_names_modelled (ops : FloatOps) (lower : Str → Str) :
+    ∀ n ∈ mathNames ++ arrNames ++ miscNames, (stdFilters ops lower n.toList).isSome = true := by
+  intro n hn
+  simp only [mathNames, arrNames, miscNames, List.mem_append, List.mem_cons, List.not_mem_nil, or_false] at hn
+  rcases hn with (((rfl | rfl | rfl | rfl | rfl | rfl | rfl | rfl | rfl | rfl | rfl) |
+    (rfl | rfl | rfl | rfl | rfl | rfl | rfl | rfl | rfl | rfl | rfl | rfl)) | (rfl | rfl | rfl | rfl | rfl | rfl)) <;>
+    simp [stdFilters, mathFilters, mathFiltersWith, Arr.filters]
+
+theorem str_names_modelled (u : StrF.Uni) : ∀ n ∈ strNames, (StrF.table u n.toList).isSome = true := by
+  intro n hn
+  simp only [strNames, List.mem_cons, List.not_mem_nil, or_false] at hn
+  rcases hn with rfl | rfl | rfl | rfl | rfl | rfl | rfl | rfl | rfl | rfl | rfl | rfl | rfl | rfl | rfl | rfl | rfl | rfl |
+    rfl | rfl | rfl | rfl | rfl <;> simp [StrF.table, StrF.Fn.ofName]
+
+/-- **Every registered filter is modelled.** The list of filters is regenerated from
+`ParserBuilder::stdlib` (src/parser.rs) and the `#[filter(name = …)]` attributes on every run; each of
+them is in the table of the math / array / html / url / date models (covered by `C02_std_filters_safe`)
+or of the string-filter model (C13).  A filter added to, removed from or renamed in the registry
+changes the table and this proof no longer checks. -/
+theorem C02_registered_filters_modelled (ops : FloatOps) (lower : Str → Str) (u : StrF.Uni) :
+    ∀ n ∈ Generated.regFilters,
+      (stdFilters ops lower n.toList).isSome = true ∨ (StrF.table u n.toList).isSome = true := by
+  intro n hn
+  have h : n ∈ mathNames ++ arrNames ++ miscNames ∨ n ∈ strNames := by
+    revert n; decide
+  rcases h with h | h
+  · exact .inl (std_names_modelled ops lower n h)
+  · exact .inr (str_names_modelled u n h)
+
+/-- and nothing is modelled that is not registered (the models do not invent filters) -/
+theorem C02_modelled_filters_registered :
+    ∀ n ∈ mathNames ++ arrNames ++ miscNames ++ strNames, n ∈ Generated.regFilters := by decide
 
 /-! ### non-vacuity -/
 example : wfL [.cycle "c".toList [.lit .nil], .for_ "x".toList (.arr (.lit .nil)) none none false [.brk] none] = true := by
